@@ -44,18 +44,36 @@ def workerOf (d : Dist (List Comp)) (q : QEntry) : Option Nat :=
 def queueOf (threads : Nat) (es : List QEntry) (w : Nat) : List QEntry :=
   es.filter (fun q => workerOf (assignment threads es) q == some w)
 
-/-- the state of a worker: the driver state, or the error it terminated with -/
-abbrev WSt := Except Fail St
+/-- the state of a worker (`apply_worker` returns `(state, Some((index, err)))`): the driver state, and the
+error the worker terminated with, if any, together with the index of the patch it happened in -/
+structure WSt where
+  st : St
+  err : Option (Nat × Fail) := none
 
-/-- one `apply_one_file_patch` of a worker; an error is absorbing (the worker has terminated) and is not
-a "failed to apply" -/
+/-- one `apply_one_file_patch` of a worker; an error is absorbing (the worker has terminated); the patch
+it happened in is published like a failure to apply (nobody needs to go past it; whether the error
+counts is decided from the final index when all workers are done, `errorCounts`).  The driver state
+survives the error: it is the state before the erroring file patch (files that the erroring
+`apply_one_file_patch` loaded but had not changed before the error are in the real `ModifiedFiles` and not
+here; they hold what is on disk, so they are not visible through `look`, and saving them rewrites the
+file with its own content) -/
 def apW (fs : FS) (cfg : Cfg) (s : WSt) (q : QEntry) : WSt × Bool :=
-  match s with
-  | .error e => (.error e, false)
-  | .ok st =>
-    match applyOne st fs cfg q.idx q.entry q.fp with
-    | .error e => (.error e, false)
-    | .ok (st', ok) => (.ok st', !ok)
+  match s.err with
+  | some _ => (s, false)
+  | none =>
+    match applyOne s.st fs cfg q.idx q.entry q.fp with
+    | .error e => ({ s with err := some (q.idx, e) }, true)
+    | .ok (st', ok) => ({ st := st', err := none }, !ok)
+
+/-- does the error of a worker count, `final` being the index the push stops at (the final value of
+`earliest_broken_patch_index`)?  parallel.rs: "If there was an error in the patch we stopped at, return it
+before anything is saved. An error in a later patch is one a thread ran into while it was ahead of the
+others: the push stops before that patch, so it does not count (which threads get how far ahead must not
+change the result)." — `.find(|(index, _)| *index <= final_patch)` -/
+def errorCounts (final : Nat) (s : WSt) : Bool :=
+  match s.err with
+  | some (i, _) => i ≤ final
+  | none => false
 
 /-- the names a file patch can touch -/
 def fpNames (fp : PFilePatch) : List (List Comp) :=
